@@ -16,7 +16,9 @@ PoolSmall == {
   T("vault",    "vault",    "u2", "u2", "this",  "vault", 2, ""),
   T("deploy",   "deploy",   "u1", "u1", "this",  "c1", 0, ""),
   T("callok",   "call",     "u2", "u2", "this",  "c1", 1, "ok"),
-  T("callfail", "call",     "u1", "u1", "this",  "c1", 1, "fail")
+  T("callfail", "call",     "u1", "u1", "this",  "c1", 1, "fail"),
+  T("fdok",     "fdcall",   "u2", "u2", "this",  "c1", 0, "ok"),
+  T("fdfail",   "fdcall",   "u1", "u1", "this",  "c1", 0, "fail")
 }
 
 \* larger pool for generation by simulation (3 users)
@@ -30,7 +32,8 @@ PoolGen == PoolSmall \cup {
   T("callfail3","call",     "u3", "u3", "this",  "c1", 2, "fail"),
   T("xfercb",   "transfer", "u1", "u1", "this",  "cb", 1, ""),
   T("vote1",    "vote",     "u1", "u1", "this",  "sys", 0, ""),
-  T("vote3",    "vote",     "u3", "u3", "this",  "sys", 0, "")
+  T("vote3",    "vote",     "u3", "u3", "this",  "sys", 0, ""),
+  T("fdfail3",  "fdcall",   "u3", "u3", "this",  "c1", 0, "fail")
 }
 AllModes == {"next", "dup", "gap"}
 GenView == [bal |-> bal, nonce |-> nonce, staked |-> staked, total |-> total, owner |-> owner, deployed |-> deployed,
